@@ -1,6 +1,8 @@
 """C03 - results are the call-graph closure of own accesses under argument substitution."""
 import common as C
 import res_run
+import imp_run
+import multi_scen
 
 
 # Closures derived by hand from the source of some fixed programs that lie outside both finding classes (independent
@@ -20,7 +22,7 @@ def main(tier: str) -> int:
     T = C.Timer()
     V = C.Verdict(prop)
     proof_files = ["proofs/ResProofs.v", "proofs/ResFuel.v", "proofs/ResOneLevel.v", "props/C03.v"]
-    build = C.coq_build(res_run.MODEL_FILES + proof_files)
+    build = C.coq_build(sorted(set(res_run.MODEL_FILES + imp_run.MODEL_FILES)) + proof_files)
     if any(t in build.failed for t in res_run.MODEL_FILES):
         raise SystemExit("internal error: model/spec files do not compile:\n" + build.log)
     n_obl, n_done, broken = C.obligations_from(build, proof_files)
@@ -42,6 +44,19 @@ def main(tier: str) -> int:
             got = m["results"].get(fn)
             if got is None or any(got[k] != v for k, v in want.items()):
                 hand_bad.append({"why": f"{fn}: results {None if got is None else {k: got[k] for k in want}} != the closure derived from the source {want}", **m})
+                break
+    # closures across a followed import (hand-derived, harness/multi_scen.py): the callee reached under two bindings,
+    # same-named helpers in two modules, a diamond
+    for code, m in imp_run.run(tier)["cases"]:
+        exp = multi_scen.SCENARIOS.get(m["project"], {}).get("expect")
+        if not exp:
+            continue
+        got_all = m["multi"].get("results") or {}
+        for fn, want in exp.items():
+            got = got_all.get(fn)
+            if got is None or any(got[k] != want[k] for k in ("gets", "sets", "dels")):
+                hand_bad.append({"why": f"{fn}: results {None if got is None else {k: got[k] for k in ('gets', 'sets', 'dels')}} != the closure derived from the source {want}",
+                                 "program": m["project"], "files": m["files"], "raised": m["multi"].get("raised")})
                 break
     for m in hand_bad[:2]:
         V.violation({"property": prop, **m})
